@@ -104,7 +104,11 @@ class Ctx:
         new = []
         knownhits = []
         for r in self.rules:
-            if r.instances < r.floor and not any(v.get("kind") == "anchor-lost" for v in r.violations):
+            # the floor guards against a rule that silently matches (almost) nothing.  Counts of *sites* move a
+            # little under behaviour-preserving edits (two loops merged into a helper, an or-pattern split), and a
+            # missing table row is reported by the rule itself, so larger floors carry 20% slack.
+            need = r.floor if r.floor < 8 else int(r.floor * 0.8)
+            if r.instances < need and not any(v.get("kind") == "anchor-lost" for v in r.violations):
                 r.violations.append(
                     {
                         "rule": r.id,
